@@ -29,7 +29,7 @@ func getArrayPrototype() *Value {
 						return &v, nil
 					}
 
-					length := len(this.Array)
+					length := len(*this.Array)
 					lengthVal := NewValue(length)
 					return &lengthVal, nil
 				},
@@ -44,7 +44,7 @@ func getArrayPrototype() *Value {
 						return nil, err
 					}
 
-					this.Array = append(this.Array, NewCell(*v[0]))
+					*this.Array = append(*this.Array, NewCell(*v[0]))
 					return this, nil
 				},
 			}),
@@ -58,13 +58,14 @@ func getArrayPrototype() *Value {
 						return nil, err
 					}
 
-					if len(this.Array) == 0 {
+					if len(*this.Array) == 0 {
 						retVal := NewValue(nil)
 						return &retVal, nil
 					}
 
-					retVal := this.Array[len(this.Array)-1].Value
-					this.Array = this.Array[:len(this.Array)-1]
+					arr := *this.Array
+					retVal := arr[len(arr)-1].Value
+					*this.Array = arr[:len(arr)-1]
 					return &retVal, nil
 				},
 			}),
@@ -78,13 +79,13 @@ func getArrayPrototype() *Value {
 						return nil, err
 					}
 
-					if len(this.Array) == 0 {
+					if len(*this.Array) == 0 {
 						retVal := NewValue(nil)
 						return &retVal, nil
 					}
 
-					retVal := this.Array[0].Value
-					this.Array = this.Array[1:]
+					retVal := (*this.Array)[0].Value
+					*this.Array = (*this.Array)[1:]
 					return &retVal, nil
 				},
 			}),
@@ -98,7 +99,7 @@ func getArrayPrototype() *Value {
 						return nil, err
 					}
 
-					for _, item := range this.Array {
+					for _, item := range *this.Array {
 						comp, err := v[0].Compare(&item.Value)
 						if err != nil {
 							return nil, err
@@ -122,7 +123,7 @@ func getArrayPrototype() *Value {
 
 					// is this array only numbers?
 					onlyNumbers := true
-					for _, item := range this.Array {
+					for _, item := range *this.Array {
 						if item.Value.Tag != ValueNum {
 							onlyNumbers = false
 							break
@@ -130,8 +131,8 @@ func getArrayPrototype() *Value {
 					}
 
 					// make a clone
-					clone := make([]*Cell, len(this.Array))
-					for i, item := range this.Array {
+					clone := make([]*Cell, len(*this.Array))
+					for i, item := range *this.Array {
 						clone[i] = &Cell{}
 						copyValue(item, clone[i])
 					}
